@@ -217,7 +217,12 @@ fn impl_step(list: &mut ItemList<Item>, op: &Op, next_id: &mut u32) -> Option<It
         }
         Op::Extend(ns) => {
             let v: Vec<Item> = ns.iter().map(&mut mk).collect();
-            list.extend(v);
+            // alternately from a Vec (exact size hint) and from a lazy iterator whose size hint has lower bound 0
+            if ns.len() % 2 == 0 {
+                list.extend(v);
+            } else {
+                list.extend(v.into_iter().filter(|_| true));
+            }
             None
         }
         Op::Clear => {
